@@ -1544,7 +1544,7 @@ class System:
                 dname = ndomain[self._parents[n][0]]
             ndomain[n] = dname
             ph_names = []
-            if tname == "SLOSS":
+            if tname == "SLOSS" or tname == "RECTIFIER":
                 ph_names += ["N/A"]
             elif (
                 tname == "CONVERTER"
